@@ -150,6 +150,12 @@ def run_c17(res, tier, seed):
                     p = m[1]
                     if p.kind != "registry" and a != p.root:
                         res.add_violation("C17/project-parent", f"{m[3]}: project parent {a}, expected {p.root}", {"request": r, "impl": a})
+                    # a file of a registry dependency opened FIRST: the project to load is the one whose build/packages
+                    # holds it (only then is the package part of a graph, external, and its modules importable)
+                    owner = os.path.dirname(os.path.dirname(os.path.dirname(p.root)))
+                    if p.kind == "registry" and a != owner:
+                        res.add_violation("C17/project-parent-of-dependency-file", f"{m[3]} (a module of a package under build/packages): project parent {a}, the enclosing project is {owner}",
+                                          {"request": r, "impl": a})
             elif kind == "lowervfs":
                 pkgs, files = m[1], m[2]
                 groups = {}
@@ -221,10 +227,22 @@ def run_e2e_session(res, tb, rng):
     w(f"{tb}/app/src/app.gleam", "import util\nimport lib\npub fn main() {\n  util.version()\n  lib.helper()\n}\n")
     order = [(pr, f"{tb}/{pr}/src/{pr}.gleam") for pr in projects] + [("app", f"{tb}/app/src/app.gleam")]
     rng.shuffle(order)
+    # sometimes the very first document of a project is a module of one of its dependencies
+    dep_first = rng.choice([None, "one", "two", "app"])
     c = lsp.Lsp(tb)
     try:
         if c.initialize() is None:
             return
+        if dep_first:
+            dpath = f"{tb}/{dep_first}/build/packages/{dep}/src/util.gleam"
+            c.notify("textDocument/didOpen", {"textDocument": {"uri": "file://" + dpath, "languageId": "gleam", "version": 1, "text": open(dpath).read()}})
+            # the dependency's own function: navigable, not editable
+            r = c.request("textDocument/prepareRename", {"textDocument": {"uri": "file://" + dpath}, "position": {"line": 0, "character": 8}}, timeout=30)
+            res.cov["evaluations"] += 1
+            if r is not None and r.get("result"):
+                res.add_violation("C17/dependency-file-editable-when-opened-first",
+                                  f"a function of build/packages/{dep} (opened before any file of project {dep_first}) can be renamed: {r.get('result')}",
+                                  {"tree": tb, "opened_first": dpath.replace(tb, ''), "dependency": dep, "answer": r})
         for pr, path in order:
             c.notify("textDocument/didOpen", {"textDocument": {"uri": "file://" + path, "languageId": "gleam", "version": 1, "text": open(path).read()}})
         for pr, path in order:
@@ -241,7 +259,7 @@ def run_e2e_session(res, tb, rng):
             if target is None or os.path.normpath(target[7:]) != want[7:]:
                 res.add_violation("C17/import-resolves-into-another-project",
                                   f"`util.version` in {pr} (opened {'after' if order.index((pr, path)) else 'first'}) resolves to {str(target).replace(tb, '')}, its own dependency is {want.replace('file://' + tb, '')}",
-                                  {"tree": tb, "order": [p for p, _ in order], "dependency": dep, "answer": r})
+                                  {"tree": tb, "order": [p for p, _ in order], "dependency_file_opened_first_in": dep_first, "dependency": dep, "answer": r})
     finally:
         c.close()
 
